@@ -413,7 +413,9 @@ def run_witnesses(prop_id):
     import importlib.util
 
     hits, gone = [], []
-    for e in load_known():
+    with open(os.path.join(VERIF, "known_findings.json")) as fh:
+        fixed = [dict(e, _fixed=True) for e in json.load(fh).get("fixed_witnesses", [])]
+    for e in load_known() + fixed:
         if e.get("property") != prop_id or not e.get("witness"):
             continue
         path = os.path.join(VERIF, e["witness"])
@@ -426,12 +428,12 @@ def run_witnesses(prop_id):
         except CaseTimeout:
             res = "witness timed out"
         except Exception as ex:  # the witness itself must never break the check
-            res = None
-            gone.append("%s (witness raised %s: %s)" % (e["id"], type(ex).__name__, short(str(ex), 120)))
+            if not e.get("_fixed"):
+                gone.append("%s (witness raised %s: %s)" % (e["id"], type(ex).__name__, short(str(ex), 120)))
             continue
         if res:
             hits.append((e, str(res)))
-        else:
+        elif not e.get("_fixed"):
             gone.append(e["id"])
     return hits, gone
 
@@ -607,6 +609,13 @@ def run(mod, tier, seed, nproc=None):
     for kid, (e, n) in known_hits.items():
         print("KNOWN-FINDING: property=%s %s (%s; %d case(s) this run)" % (mod.ID, e["what"], kid, n))
     w_hits, w_gone = run_witnesses(mod.ID)
+    for e, observed in list(w_hits):
+        if e.get("_fixed"):
+            # a repaired defect is back
+            w_hits.remove((e, observed))
+            violations += 1
+            print("VIOLATION property=%s replay=%s" % (mod.ID, e["witness"]))
+            print("  bucket=regression-of-fixed-finding|%s| detail=%s (repaired by %s)" % (e["id"], short(observed, 300), e.get("commit")))
     for e, observed in w_hits:
         known_hits.setdefault(e["id"], [e, 0])[1] += 1
         print("KNOWN-FINDING: property=%s %s (%s; witness %s: %s)" % (mod.ID, e["what"], e["id"], e["witness"], short(observed, 200)))
@@ -669,6 +678,24 @@ def run(mod, tier, seed, nproc=None):
 
 def replay(mod, path):
     bootstrap()
+    if path.endswith(".py"):
+        # a witness of a known / repaired finding
+        import importlib.util
+
+        spec = importlib.util.spec_from_file_location("witness", path)
+        w = importlib.util.module_from_spec(spec)
+        spec.loader.exec_module(w)
+        res = w.reproduce()
+        if res:
+            is_open = any(os.path.abspath(os.path.join(VERIF, e.get("witness", ""))) == os.path.abspath(path) for e in load_known())
+            if is_open:
+                print("KNOWN-FINDING: property=%s %s" % (mod.ID, short(res, 400)))
+                return 0
+            print("  detail=%s" % short(res, 400))
+            print("VIOLATION property=%s replay=%s" % (mod.ID, path))
+            return 1
+        print("%s witness %s: does not reproduce" % (mod.ID, path))
+        return 0
     with open(path) as fh:
         rec = json.load(fh)
     _register_gen_specs(rec)
